@@ -666,7 +666,46 @@ def run_badmask(chk, spec):
 		chk.fail("an assignment that fails for any reason leaves the table as it was", f"table-assign/wrong-length-mask/not-atomic", f"{spec!r}: raised {o!r}; {before} -> {got}")
 
 
-RUNNERS = {"badmask": run_badmask, "selfmask": run_selfmask, "sequence": run_sequence, "overflow": run_overflow, "assign": run_assign, "iterfault": run_iterfault, "table_assign": run_table_assign, "rename": run_rename}
+def run_own_source(chk, spec):
+	"""the source of a region assignment is the target table itself (or some of its own live columns): every cell receives what the source held when the
+	assignment was made"""
+	cols = [list(c) for c in spec["cols"]]
+	c = len(cols)
+	names = [f"c{j}" for j in range(c)]
+	t = Table([Vector(list(x), name=nm) for x, nm in zip(cols, names)])
+	perm = spec["perm"]
+	form = spec["form"]
+	if form == "table-names":
+		o = call(t.__setitem__, (slice(None), [names[j] for j in perm]), t)
+		model = list(cols)
+		for src, j in enumerate(perm):
+			model[j] = list(cols[src])
+	elif form == "table-reversed-slice":
+		o = call(t.__setitem__, (slice(None), slice(None, None, -1)), t)
+		model = [list(x) for x in reversed(cols)]
+	elif form == "own-columns-list":
+		o = call(t.__setitem__, (slice(None), names), [t[names[j]] for j in perm])
+		model = [list(cols[j]) for j in perm]
+	elif form == "own-columns-cols":
+		o = call(t.__setitem__, (slice(None), list(range(c))), [t.cols()[j] for j in perm])
+		model = [list(cols[j]) for j in perm]
+	else:
+		o = call(t.__setitem__, (slice(None), slice(None)), Table([t.cols()[j] for j in perm]))
+		model = [list(cols[j]) for j in perm]
+	chk.judged("table-assign", ("own-source", form, tuple(perm)))
+	got = [list(x._underlying) for x in t.cols()]
+	if not o.ok:
+		if got != cols:
+			chk.fail("an assignment that fails for any reason leaves the table as it was", f"table-assign/own-source/not-atomic/{type(o.exc).__name__}", f"{spec!r}: raised {o!r}; {cols} -> {got}")
+		else:
+			chk.counters["own-source-refused"] += 1
+		return
+	if any(not M.eq_list(g, e) for g, e in zip(got, model)):
+		chk.fail("table region assignment leaves exactly what list assignment would produce (the source is read as it was when the assignment was made)", f"table-assign/own-source/{form}/wrong-cells",
+			f"{spec!r}: table now {got}, list model {model}")
+
+
+RUNNERS = {"own_source": run_own_source, "badmask": run_badmask, "selfmask": run_selfmask, "sequence": run_sequence, "overflow": run_overflow, "assign": run_assign, "iterfault": run_iterfault, "table_assign": run_table_assign, "rename": run_rename}
 
 COLKINDS = ["bool", "int", "float", "complex", "str", "date", "datetime", "object", "bytes"]
 
@@ -764,6 +803,16 @@ def run(chk):
 				for targets in ([order[0], order[1]], [order[1], order[0]], [order[0], order[1], order[2]], [order[2], order[0]], [order[1]]):
 					chk.case("selfmask", {"kind": kind, "cols": cols3, "names": nm, "selector": order[0], "targets": targets, "value": value,
 						"via": rng.choice(["cols", "name"]), "colform": rng.choice(["names", "ints", "tuple"])}, "table-assign-self-selector")
+	import itertools as _it
+	for c in (2, 3):
+		for perm in _it.permutations(range(c)):
+			if list(perm) == list(range(c)):
+				continue
+			for form in ("table-names", "table-reversed-slice", "own-columns-list", "own-columns-cols", "table-of-own-columns"):
+				if form == "table-reversed-slice" and list(perm) != list(reversed(range(c))):
+					continue
+				nrow = rng.choice([1, 2, 3])
+				chk.case("own_source", {"cols": [[10 * j + r for r in range(nrow)] for j in range(c)], "perm": list(perm), "form": form}, "table-assign-own-source")
 	for n in (2, 3):
 		for delta in (-1, 1, 2):
 			for rep in range(2 if chk.quick() else 8):
